@@ -16,22 +16,22 @@ def classify(case, kind):
     known = set(case.get("known_classes", []))
     out = case.get("stdout", "") + "\n" + case.get("stderr", "")
     exit_ = case.get("exit")
+    panicked = "panicked at" in case.get("stderr", "")
+    located = re.search(r"\.graphql:\d+:\d+", out) is not None
     if "parse-error-at-end-of-input-not-located" in known:
         # exit 1 with a parse error whose message carries no "path:line:column"
-        if exit_ == 1 and "Parse error" in out and not re.search(r"\.graphql:\d+:\d+", out):
+        if exit_ == 1 and "Parse error" in out and not located:
             cls.add("parse-error-at-end-of-input-not-located")
     if "generate-stage-error-not-located" in known:
-        if exit_ == 1 and "Type for scalar" in out and not re.search(r"\.graphql:\d+:\d+", out):
+        if exit_ == 1 and "Type for scalar" in out and not located:
             cls.add("generate-stage-error-not-located")
     if "unspread-fragment-not-checked-then-generate-panics" in known:
-        panicked = "panicked at" in case.get("stderr", "")
-        if exit_ == 0 and (panicked or "generate" not in case.get("commands", [])):
-            # `check` accepts the document (C03 finding) and `generate` panics on it (C08 finding) ...
+        # `check` accepts the document (C03 finding): no diagnostic names the file of the injected fault ...
+        files = [f for ft in case.get("faults", []) if ft.get("known") for f in ft.get("files", [])]
+        if not any(f in out or f.replace("/", "\\/") in out for f in files):
             cls.add("unspread-fragment-not-checked-then-generate-panics")
-        if exit_ == 0 and panicked:
-            # ... and the panic is swallowed by the async runtime: status 0, no output document
-            cls.add("panic-ends-with-status-0")
-    elif exit_ == 0 and "panicked at" in case.get("stderr", ""):
+    if exit_ == 0 and panicked:
+        # ... and a panic (here: of `generate` on that document, C08 finding) is swallowed by the async runtime
         cls.add("panic-ends-with-status-0")
     return cls
 
@@ -60,7 +60,7 @@ def run(ctx):
             ],
             assumptions=[
                 "schema files are GraphQL SDL files (no introspection JSON, no schema.js), no plugins other than unknown ones; configuration comes from graphql.config.yaml",
-                "theorems about exit status and output exclude panics by the computable guard no_panic (a panic ends the process with status 0: C18_panic_exits_zero_refuted)",
+                "theorems about exit status and output exclude panics by a computable guard (a panic ends the process with status 0: C18_panic_exits_zero_refuted)",
             ],
         )
     finally:
